@@ -240,10 +240,15 @@ func execChild(c Case) (res Result, err error) {
 		}
 		lastI, lastRPC, lastWire := -9, "(startup)", ""
 		var partial []string
-		// One event must arrive within the hang bound (+ generous margin for
-		// building a multi-MiB input and for a loaded machine).
-		budget := reqDeadline + hangAfter + 25*time.Second
+		// One event must arrive within the hang bound plus a margin: generous while the
+		// worker prepares input (multi-MiB requests, loaded machine), tighter while a call is
+		// in flight (the worker itself reports a hang after reqDeadline+hangAfter unless it is
+		// starved by what the request set off).
 		for {
+			budget := reqDeadline + hangAfter + 25*time.Second
+			if lastI > setupPhase {
+				budget = reqDeadline + hangAfter + 6*time.Second
+			}
 			select {
 			case ev, ok := <-w.events:
 				if !ok {
@@ -287,7 +292,7 @@ func execChild(c Case) (res Result, err error) {
 				// goroutine explosion or the collector cannot finish). Ask the runtime for a
 				// goroutine dump (SIGQUIT) to name the function that dominates, then kill it.
 				_ = w.cmd.Process.Signal(syscall.SIGQUIT)
-				quit := time.After(20 * time.Second)
+				quit := time.After(5 * time.Second)
 			drain:
 				for {
 					select {
